@@ -503,6 +503,17 @@ class World:
     def op_charge(self, vid, tid):
         self.items[vid].charge = None if tid is None else self.mk('charge', tid)
 
+    def op_charge_existing(self, vid, cvid):
+        self.items[vid].charge = self.items[cvid]
+
+    def op_fleet_remove_from(self, fid, flid):
+        """Remove a fit from a fleet it may not be a member of (raises KeyError then)."""
+        if flid not in self.fleets:
+            fl = Fleet()
+            fl._vid = flid
+            self.fleets[flid] = fl
+        self.fleets[flid].fits.remove(self.fits[fid])
+
     def op_target(self, vid, tvid):
         self.items[vid].target = None if tvid is None else self.items[tvid]
 
@@ -893,8 +904,18 @@ class OpGen:
         fits = w.ss_fits()
         f = rnd.choice(fits)
         items = w.all_items()
-        k = rnd.randrange(7)
+        k = rnd.randrange(9)
         mods = [i for i in items if type(i) is ModuleHigh]
+        if k == 7:
+            # a charge that sits in another module: rejected, the module's own charge is put back
+            charged = [i for i in items if type(i) in (ModuleHigh, ModuleMid, ModuleLow) and i.charge is not None]
+            if len(charged) >= 2:
+                m1, m2 = rnd.sample(charged, 2)
+                return ('charge_existing', m2._vid, m1.charge._vid)
+        if k == 8 and f.fleet is not None:
+            # leaving a fleet the fit is not in
+            other = [x for x in (901, 902) if x != f.fleet._vid]
+            return ('fleet_remove_from', f._vid, rnd.choice(other))
         if k == 0 and mods:
             return ('rack_existing', f._vid, 'high', rnd.choice(['append', 'equip', 'place', 'insert']),
                     rnd.randint(-3, 4), rnd.choice(mods)._vid)
